@@ -68,70 +68,102 @@ func workerMain(args []string) {
 	result := fs.String("result", "", "file to write the JSON result to")
 	tmp := fs.String("tmp", "", "temp dir")
 	dump := fs.String("dump", os.Getenv("C19_DUMP"), "write the uncompressed layer here")
+	nb := fs.Int("n", 1, "number of builds in this process, one after the other, sharing ONE apk.Cache object")
+	gate := fs.String("gate", "", "before build i >= 2: create <gate>.<i>.reached and wait for <gate>.<i>")
+	nokey := fs.Bool("nokey", false, "no keyring in the configuration (the key comes from key discovery)")
+	noetag := fs.Bool("noetag", false, "apk.NewCache(false)")
 	_ = fs.Parse(args)
 
+	// one Cache object for every build of this process (what apko's own multi-architecture
+	// build and library users do: NewCache's documentation)
+	shared := apk.NewCache(!*noetag)
+	var all []workerResult
 	res := workerResult{}
-	func() {
-		defer func() {
-			if r := recover(); r != nil {
-				res = workerResult{Err: fmt.Sprintf("panic: %v", r)}
+	for i := 1; i <= *nb; i++ {
+		if i > 1 && *gate != "" {
+			if f, err := os.Create(fmt.Sprintf("%s.%d.reached", *gate, i)); err == nil {
+				f.Close()
+			}
+			deadline := time.Now().Add(60 * time.Second)
+			for time.Now().Before(deadline) {
+				if _, err := os.Stat(fmt.Sprintf("%s.%d", *gate, i)); err == nil {
+					break
+				}
+				time.Sleep(2 * time.Millisecond)
+			}
+		}
+		res = workerResult{}
+		func() {
+			defer func() {
+				if r := recover(); r != nil {
+					res = workerResult{Err: fmt.Sprintf("panic: %v", r)}
+				}
+			}()
+			ctx := clog.WithLogger(context.Background(), clog.New(slog.NewTextHandler(io.Discard, nil)))
+			keyring := strings.Split(*key, ",")
+			if *nokey {
+				keyring = nil
+			}
+			ic := types.ImageConfiguration{
+				Contents: types.ImageContents{
+					RuntimeRepositories: []string{*repo},
+					Keyring:             keyring,
+					Packages:            strings.Split(*pkgs, ","),
+				},
+				Archs: []types.Architecture{types.ParseArchitecture("amd64")},
+			}
+			opts := []build.Option{
+				build.WithImageConfiguration(ic),
+				build.WithArch(types.ParseArchitecture("amd64")),
+				build.WithSourceDateEpoch(time.Unix(0, 0).UTC()),
+				build.WithTempDir(*tmp),
+			}
+			if *cache != "" {
+				opts = append(opts, build.WithCache(*cache, *offline, shared))
+			}
+			bc, err := build.New(ctx, tarfs.New(), opts...)
+			if err != nil {
+				res.Err = "new: " + err.Error()
+				return
+			}
+			layers, err := bc.BuildLayers(ctx)
+			if err != nil {
+				res.Err = "build: " + err.Error()
+				return
+			}
+			if len(layers) != 1 {
+				res.Err = fmt.Sprintf("unexpected number of layers %d", len(layers))
+				return
+			}
+			d, err := layers[0].Digest()
+			if err != nil {
+				res.Err = "digest: " + err.Error()
+				return
+			}
+			di, err := layers[0].DiffID()
+			if err != nil {
+				res.Err = "diffid: " + err.Error()
+				return
+			}
+			if *dump != "" {
+				if rc, err := layers[0].Uncompressed(); err == nil {
+					b, _ := io.ReadAll(rc)
+					_ = os.WriteFile(fmt.Sprintf("%s.%d.tar", *dump, os.Getpid()), b, 0o644)
+				}
+			}
+			res = workerResult{OK: true, Digest: d.String(), DiffID: di.String()}
+			if rc, err := layers[0].Uncompressed(); err == nil {
+				res.InstalledDB, res.RestHash = splitLayer(rc)
+				rc.Close()
 			}
 		}()
-		ctx := clog.WithLogger(context.Background(), clog.New(slog.NewTextHandler(io.Discard, nil)))
-		ic := types.ImageConfiguration{
-			Contents: types.ImageContents{
-				RuntimeRepositories: []string{*repo},
-				Keyring:             []string{*key},
-				Packages:            strings.Split(*pkgs, ","),
-			},
-			Archs: []types.Architecture{types.ParseArchitecture("amd64")},
-		}
-		opts := []build.Option{
-			build.WithImageConfiguration(ic),
-			build.WithArch(types.ParseArchitecture("amd64")),
-			build.WithSourceDateEpoch(time.Unix(0, 0).UTC()),
-			build.WithTempDir(*tmp),
-		}
-		if *cache != "" {
-			opts = append(opts, build.WithCache(*cache, *offline, apk.NewCache(true)))
-		}
-		bc, err := build.New(ctx, tarfs.New(), opts...)
-		if err != nil {
-			res.Err = "new: " + err.Error()
-			return
-		}
-		layers, err := bc.BuildLayers(ctx)
-		if err != nil {
-			res.Err = "build: " + err.Error()
-			return
-		}
-		if len(layers) != 1 {
-			res.Err = fmt.Sprintf("unexpected number of layers %d", len(layers))
-			return
-		}
-		d, err := layers[0].Digest()
-		if err != nil {
-			res.Err = "digest: " + err.Error()
-			return
-		}
-		di, err := layers[0].DiffID()
-		if err != nil {
-			res.Err = "diffid: " + err.Error()
-			return
-		}
-		if *dump != "" {
-			if rc, err := layers[0].Uncompressed(); err == nil {
-				b, _ := io.ReadAll(rc)
-				_ = os.WriteFile(fmt.Sprintf("%s.%d.tar", *dump, os.Getpid()), b, 0o644)
-			}
-		}
-		res = workerResult{OK: true, Digest: d.String(), DiffID: di.String()}
-		if rc, err := layers[0].Uncompressed(); err == nil {
-			res.InstalledDB, res.RestHash = splitLayer(rc)
-			rc.Close()
-		}
-	}()
+		all = append(all, res)
+	}
 	b, _ := json.Marshal(res)
+	if *result != "" && *nb > 1 {
+		ba, _ := json.Marshal(all)
+		_ = os.WriteFile(*result+".all", ba, 0o644)
+	}
 	if *result != "" {
 		_ = os.WriteFile(*result+".tmp", b, 0o644)
 		_ = os.Rename(*result+".tmp", *result)
